@@ -15,12 +15,29 @@ theorem C04_covers_registry : allFunctions.map (·.1) =
      "inverse", "isqrt", "kron", "kronsum", "log", "mul", "nullspace", "pinv", "plu", "pow", "slogdet",
      "sqrt", "svd", "trace", "transpose"] := by decide +kernel
 
+/-- **No recorded exception.**  The generated table carries NO clause for any function: every ambiguity that was
+    ever recorded has been repaired in /repo, so the `excluded` disjunct of `okOn` is `false` everywhere and
+    `C04_f` reads `(resolve hier table_f t).isUnique = true` (see `C04_total_unambiguous_noexcept` in
+    Properties/C04.lean).  Deliberately brittle: when a clause of `CLAUSES` (harness/translators/dump_rules.py)
+    becomes active again, `clauses_f` is non-empty, this theorem fails and the gate breaks — recording an
+    exception then needs an explicit restatement here, it cannot happen silently. -/
+theorem C04_no_recorded_exception : ∀ e ∈ allFunctions, e.2.2.2.2 = [] := by
+  intro e he
+  simp only [allFunctions, List.mem_cons, List.not_mem_nil, or_false] at he
+  rcases he with rfl | rfl | rfl | rfl | rfl | rfl | rfl | rfl | rfl | rfl | rfl | rfl | rfl | rfl | rfl
+    | rfl | rfl | rfl | rfl | rfl | rfl | rfl | rfl | rfl | rfl <;> rfl
+
 /-- every active clause class is witnessed: some lattice tuple in it is really not resolved
     (so a clause cannot silently outlive the defect it names) -/
 def clauseWitnessed (e : String × List Sig × List String × List Tup × List Clause) : Bool :=
   e.2.2.2.2.all fun c => e.2.2.2.1.any fun t => c.has hier t && !(resolve hier e.2.1 t).isUnique
 
-theorem C04_clauses_witnessed : allFunctions.all clauseWitnessed = true := by decide +kernel
+/-- Kept for its name only: with `C04_no_recorded_exception` there is no active clause, so this is a
+    corollary (it says something only for a table with a recorded clause; the non-vacuous facts are
+    `C04_no_recorded_exception` and the regression examples of PartH). -/
+theorem C04_clauses_witnessed : allFunctions.all clauseWitnessed = true := by
+  refine List.all_eq_true.mpr fun e he => ?_
+  simp [clauseWitnessed, C04_no_recorded_exception e he]
 
 /-- on every live table `≤` is a preorder, so `resolve_minimal` applies -/
 theorem C04_tables_preorder : allFunctions.all (fun e => preorderOn hier e.2.1) = true := by decide +kernel
